@@ -368,3 +368,12 @@ Definition wellformed (n : net) : Prop :=
 Definition compact_decims (n : net) : Z * Z := decims (shape (nodes n)) 3 4.
 Definition compact_keeps (n : net) (c : coord) : bool := negb (decimated (fst (compact_decims n)) (snd (compact_decims n)) c).
 Definition compact_map (n : net) (c : coord) : coord := remap_coord (shape (nodes n)) (fst (compact_decims n)) (snd (compact_decims n)) c.
+
+(* ---------- error dynamics of Network::distribute_error in exact arithmetic (finding C19-F1) ----------
+   For a neighbour at Manhattan distance `dist` of a node that is saturated again and again, and that is not hit itself, every
+   distribution performs  node.error += (distribution_factor / dist) * node.error  with distribution_factor = dfn/16; nothing but
+   retrain (smooth) resets node.error.  The error is the exact fraction fst/snd. *)
+Definition distribute_once (e : Z * Z) (dfn dist : Z) : Z * Z := (fst e * (16 * dist + dfn), snd e * (16 * dist)).
+Fixpoint distribute_times (k : nat) (e : Z * Z) (dfn dist : Z) : Z * Z :=
+  match k with O => e | S k' => distribute_times k' (distribute_once e dfn dist) dfn dist end.
+Definition f64_max_bound : Z := 2 ^ 1024.      (* f64::MAX < 2^1024 *)
